@@ -33,7 +33,7 @@ SHARD_TIMEOUT = {"quick": 900, "thorough": 5400}
 
 
 def gen_cases(tier, seed):
-    n = 900 if tier == "quick" else 20000
+    n = 900 if tier == "quick" else 14000
     orders = 4 if tier == "quick" else 10
     for i in range(n):
         yield {"id": "m%d" % i, "seed": env.derive_seed(seed, ID, i), "orders": orders,
